@@ -73,8 +73,8 @@ T = {
         "link argument (evaluate_parameter) is logged and surfaces as an EvaluationException that names the query being evaluated and the "
         "position of the failing argument, and a link that failed never yields a value; parse_argv turns a surplus or unconvertible argument into an ArgumentParserException that names "
         "the query being evaluated; State.get never hands out the data of an error state. Which message / position / query text the error record carries is explored only (failing "
-        "action at every position and in every way); two deviations there (which query text a position of a nested or non-canonically spelled failure is measured in) are recorded findings.",
-        "KNOWN-FINDING lines name two genuine, unrepaired deviations in the error record (not in the containment itself). " + BOUNDED),
+        "action at every position and in every way); three deviations there (which query text a position of a nested or non-canonically spelled failure is measured in; resource keys that exist without data) are recorded findings.",
+        "KNOWN-FINDING lines name three genuine, unrepaired deviations (two in the error record, one in the containment: a resource key without data, pinned by an existing test; Context.evaluate_resource is outside the deductive part - used through an assumed well-formedness contract only). " + BOUNDED),
 "C07": ("proof",
         "contract-based deductive verification of the real MemoryStore code, the key helpers and Store.finalize_metadata against an abstract "
         "store view (own VC generator, z3/cvc5); bounded reference-model comparison of 14 store compositions as labelled stand-in",
